@@ -58,8 +58,8 @@ def surface_position(
     lat_odd_s = lat_odd_n - 90
 
     # chose which solution corrispondes to receiver location
-    lat_even = lat_even_n if lat_ref > 0 else lat_even_s
-    lat_odd = lat_odd_n if lat_ref > 0 else lat_odd_s
+    lat_even = min(lat_even_n, lat_even_s, key=lambda lat: abs(lat_ref - lat))
+    lat_odd = min(lat_odd_n, lat_odd_s, key=lambda lat: abs(lat_ref - lat))
 
     # check if both are in the same latidude zone, rare but possible
     if common.cprNL(lat_even) != common.cprNL(lat_odd):
